@@ -904,6 +904,15 @@ def run_history(ctx, cnfgen, quick):
                          mem=mem_constraints(F, is_opb), hdr_items=c06.header_items(F), history=list(log))
                 what = r.choice(['opb', 'opb', 'latex', 'both'])
                 try:
+                    # the string renderings, asked again and again of the same object (a rendering kept from an earlier state
+                    # of the object would show here): the first line declares the counts of NOW
+                    first = F.to_opb().split('\n')[0]
+                    want = '* #variable= %d #constraint= %d' % (n, len(c['mem']))
+                    if first != want:
+                        ctx.violation('counterexample', 'to_opb() after a sequence of edits declares %r, the formula in memory has %d variables and %d constraints'
+                                      % (first[:60], n, len(c['mem'])), dict(input=dict(history=list(log), kind='OPB' if is_opb else 'CNF'), first_line=first[:80], expected=want),
+                                      True, site='to_opb', cls='history-stale-counts')
+                        continue
                     if what in ('opb', 'both'):
                         via = r.choice(['StringIO', 'name', 'name', 'fileobj', 'stdout'])
                         c['header'], c['names'], c['via'] = r.random() < 0.7, r.random() < 0.5, via
